@@ -61,22 +61,30 @@ theorem processCommands_eq (sys : ActorSys σ η) (i : Nat) (cmds : List Cmd) (s
     cases c with
     | send dst msg =>
       simp only [processCommands, applyCmd, Option.bind_some]
-      rw [ih _ ts m hT hR]
-      simp [pcResult, sendsOf, sendAll, recordOuts, applyTimerCmd, applyRandomCmd]
+      rw [ih (ts := ts) (m := m)]
+      · simp [pcResult, sendsOf, sendAll, recordOuts, applyTimerCmd, applyRandomCmd]
+      · exact hT
+      · exact hR
     | setTimer t =>
       simp only [processCommands, applyCmd, Option.bind_some]
       have hle : ¬ st.timers.length ≤ i := by omega
       simp only [hle, if_false, modify_eq_set _ hT]
-      rw [ih _ (sins natLt t ts) m (by simp [List.getElem?_set_self hTl]) hR]
-      simp [pcResult, sendsOf, applyTimerCmd, applyRandomCmd, List.set_set]
+      rw [ih (ts := sins natLt t ts) (m := m)]
+      · simp [pcResult, sendsOf, applyTimerCmd, applyRandomCmd, List.set_set]
+      · simp [List.getElem?_set_self hTl]
+      · exact hR
     | cancelTimer t =>
       simp only [processCommands, applyCmd, hT, Option.bind_some]
-      rw [ih _ (srem t ts) m (by simp [List.getElem?_set_self hTl]) hR]
-      simp [pcResult, sendsOf, applyTimerCmd, applyRandomCmd, List.set_set]
+      rw [ih (ts := srem t ts) (m := m)]
+      · simp [pcResult, sendsOf, applyTimerCmd, applyRandomCmd, List.set_set]
+      · simp [List.getElem?_set_self hTl]
+      · exact hR
     | chooseRandom key choices =>
       simp only [processCommands, applyCmd, hR, Option.bind_some]
-      rw [ih _ ts _ hT (by simp [List.getElem?_set_self hRl])]
-      simp [pcResult, sendsOf, applyTimerCmd, applyRandomCmd, List.set_set]
+      rw [ih (ts := ts) (m := if choices.isEmpty then aremove key m else ainsert natLt key choices m)]
+      · simp [pcResult, sendsOf, applyTimerCmd, applyRandomCmd, List.set_set]
+      · exact hT
+      · simp [List.getElem?_set_self hRl]
 
 /-! ### `next_state` is the specified step on well-formed states -/
 
@@ -93,7 +101,7 @@ theorem step_eq_specStep (sys : ActorSys σ η) (st : St σ η) (a : Action) (hw
     step sys st a = specStep sys st a := by
   obtain ⟨hA, hT, hR, hC⟩ := hwf
   cases a with
-  | drop e => simp only [step, specStep]
+  | drop e => simp only [step, specStep]; cases st.net.onDrop e <;> rfl
   | crash i =>
     simp only [step, specStep]
     by_cases hi : i < sys.n
@@ -104,9 +112,9 @@ theorem step_eq_specStep (sys : ActorSys σ η) (st : St σ η) (a : Action) (hw
     · have h1 : st.timers[i]? = none := List.getElem?_eq_none (by omega)
       simp [h1, hi]
   | deliver e =>
-    simp only [step, specStep, eventOf]
+    simp only [step, specStep, eventOf, specHandlerStep]
     cases hs : st.actors[e.dst]? with
-    | none => simp
+    | none => simp [isDeliver]
     | some s =>
       have hlt := lt_length_of_getElem? hs
       obtain ⟨ts, h1⟩ := getElem?_of_lt (l := st.timers) (i := e.dst) (by omega)
@@ -130,9 +138,9 @@ theorem step_eq_specStep (sys : ActorSys σ η) (st : St σ η) (a : Action) (hw
               rw [processCommands_eq sys e.dst cmds _ ts m (by simpa using h1) (by simpa using h2)]
               simp [pcResult, setActor_eq _ _ s ns hs, firedTimers, selectedRandom, recordIn?, ofOption]
   | timeout i t =>
-    simp only [step, specStep, eventOf]
+    simp only [step, specStep, eventOf, specHandlerStep]
     cases hs : st.actors[i]? with
-    | none => simp
+    | none => simp [isDeliver]
     | some s =>
       have hlt := lt_length_of_getElem? hs
       obtain ⟨ts, h1⟩ := getElem?_of_lt (l := st.timers) (i := i) (by omega)
@@ -149,9 +157,9 @@ theorem step_eq_specStep (sys : ActorSys σ η) (st : St σ η) (a : Action) (hw
             (by simp [List.getElem?_set_self (lt_length_of_getElem? h1)]) (by simpa using h2)]
           simp [pcResult, setActor_eq _ _ s ns hs, firedTimers, selectedRandom, recordIn?, ofOption, List.set_set]
   | selectRandom i key r =>
-    simp only [step, specStep, eventOf]
+    simp only [step, specStep, eventOf, specHandlerStep]
     cases hs : st.actors[i]? with
-    | none => simp
+    | none => simp [isDeliver]
     | some s =>
       have hlt := lt_length_of_getElem? hs
       obtain ⟨ts, h1⟩ := getElem?_of_lt (l := st.timers) (i := i) (by omega)
@@ -177,43 +185,47 @@ theorem wf_specNext {sys : ActorSys σ η} {st st' : St σ η} {a : Action} {i :
     exact ⟨by simp [hA], by simp [hT], by simp [hR], hC⟩
   · simp at h
 
+/-- inversion of the specified step: what a transition is -/
+theorem specHandlerStep_next {sys : ActorSys σ η} {st st' : St σ η} {a : Action} {i : Nat} {ev : Event}
+    (h : specHandlerStep sys st a i ev = .next st') :
+    ∃ s ns cmds, st.actors[i]? = some s ∧ ¬ (st.crashed[i]? = some true ∧ isDeliver a = true) ∧
+      handler sys i s ev = .ok ns cmds ∧ ignoredBy sys ns cmds a = false ∧
+      specNext sys st a i s ns cmds = some st' := by
+  unfold specHandlerStep at h
+  cases hs : st.actors[i]? with
+  | none => rw [hs] at h; simp only at h; split at h <;> cases h
+  | some s =>
+    rw [hs] at h
+    simp only at h
+    by_cases hc : (st.crashed[i]? = some true && isDeliver a) = true
+    · rw [if_pos hc] at h; cases h
+    · rw [if_neg hc] at h
+      cases hh : handler sys i s ev with
+      | panic => rw [hh] at h; cases h
+      | ok ns cmds =>
+        rw [hh] at h
+        simp only at h
+        by_cases hi : ignoredBy sys ns cmds a = true
+        · rw [if_pos hi] at h; cases h
+        · rw [if_neg hi] at h
+          cases hn : specNext sys st a i s ns cmds with
+          | none => rw [hn] at h; cases h
+          | some st2 =>
+            rw [hn] at h
+            simp only [ofOption, Outcome.next.injEq] at h
+            subst h
+            refine ⟨s, ns, cmds, rfl, ?_, hh, by simpa using hi, hn⟩
+            simpa using hc
+
 theorem wf_step {sys : ActorSys σ η} {st st' : St σ η} {a : Action} (hwf : st.WF sys)
     (h : step sys st a = .next st') : st'.WF sys := by
   rw [step_eq_specStep sys st a hwf] at h
   have hwf' := hwf
   obtain ⟨hA, hT, hR, hC⟩ := hwf
-  have key : ∀ (i : Nat) (ev : Event), eventOf a = some (i, ev) →
-      (match st.actors[i]? with
-        | none => (match a with | .deliver _ => Outcome.ignored | _ => Outcome.panic)
-        | some s =>
-          if (st.crashed[i]? = some true && isDeliver a) = true then Outcome.ignored else
-          match handler sys i s ev with
-          | .panic => Outcome.panic
-          | .ok ns cmds =>
-            if ignoredBy sys ns cmds a = true then Outcome.ignored
-            else ofOption (specNext sys st a i s ns cmds)) = Outcome.next st' → st'.WF sys := by
-    intro i ev _ h
-    cases hs : st.actors[i]? with
-    | none => rw [hs] at h; cases a <;> simp at h
-    | some s =>
-      rw [hs] at h
-      simp only at h
-      split at h
-      · cases h
-      · cases hh : handler sys i s ev with
-        | panic => rw [hh] at h; cases h
-        | ok ns cmds =>
-          rw [hh] at h
-          simp only at h
-          split at h
-          · cases h
-          · cases hn : specNext sys st a i s ns cmds with
-            | none => rw [hn] at h; simp [ofOption] at h
-            | some st2 =>
-              rw [hn] at h
-              simp only [ofOption, Outcome.next.injEq] at h
-              subst h
-              exact wf_specNext hwf' hn
+  have key : ∀ (i : Nat) (ev : Event), specHandlerStep sys st a i ev = .next st' → st'.WF sys := by
+    intro i ev h
+    obtain ⟨s, ns, cmds, _, _, _, _, hn⟩ := specHandlerStep_next h
+    exact wf_specNext hwf' hn
   cases a with
   | drop e =>
     simp only [specStep] at h
@@ -226,9 +238,9 @@ theorem wf_step {sys : ActorSys σ η} {st st' : St σ η} {a : Action} (hwf : s
     · simp [hi] at h; subst h
       exact ⟨hA, by simp [hT], by simp [hR], by simp [hC]⟩
     · simp [hi] at h
-  | deliver e => exact key e.dst (.msg e.src e.msg) rfl (by simpa [specStep, eventOf] using h)
-  | timeout i t => exact key i (.timeout t) rfl (by simpa [specStep, eventOf] using h)
-  | selectRandom i k r => exact key i (.random r) rfl (by simpa [specStep, eventOf] using h)
+  | deliver e => exact key e.dst (.msg e.src e.msg) (by simpa [specStep, eventOf] using h)
+  | timeout i t => exact key i (.timeout t) (by simpa [specStep, eventOf] using h)
+  | selectRandom i k r => exact key i (.random r) (by simpa [specStep, eventOf] using h)
 
 /-! ### `init_states` -/
 
